@@ -30,6 +30,7 @@ EXPECTED_PROBES = ['overflow_occurred', 'clear_flag_compared', 'flag_set_seen', 
 
 def gen(rng, tier, i):
     script = cgen.gen_script(rng, max_gates=rng.choice([6, 12, 24]), max_in=5, max_ff=2, p_glitchy=rng.choice([0.3, 0.5, 0.7]), want_dangling=rng.random() < 0.15)
+    if rng.random() < 0.03: script = {'net': 'b01', 'gates': [0] * 99}
     sims = rng.randint(1, 4)
     r = rng.random()
     if r < 0.5: caps = {'default': 16, 'vec': [rng.choice([4, 4, 8, 32, 64]) for _ in range(rng.randint(2, 13))]}
